@@ -432,3 +432,46 @@ class ScheduledDatagramsAreNeverDropped(ScanCheck):
                 ('queue_internals_touched_by_the_send_loop_only', not mutex, {'sites': str(mutex)}),
                 ('stopping_waits_for_the_send_thread_without_timeout',
                  joins == [('join', 0, [])], {'sites': str(joins)})]
+
+
+@register
+class SendQueueIsOrderedByDueTime(ScanCheck):
+    id = 'C15.send_queue_is_ordered_by_due_time'
+    prop = 'C15'
+    doc = ('the send loop looks at the HEAD of the priority queue only and waits while that entry is not due '
+           '(C15.send_loop_never_early), so every scheduled transmission goes out at its own time only if the queue orders '
+           'its entries by due time: _EnqueuedMessage is a dataclass with order=True whose FIRST compared field is '
+           'send_time (dataclass ordering compares fields in definition order), the message itself is excluded from the '
+           'comparison, the queue is a PriorityQueue, and the two enqueue sites pass the computed send time first')
+
+    def scan(self, repo):
+        nt = repo.module(MOD)
+        cd = nt.classes['NetworkingThread']
+        dc = next((n for n in cd.body if isinstance(n, _ast.ClassDef) and n.name == '_EnqueuedMessage'), None)
+        out = []
+        if dc is None:
+            return [('enqueued_message_class_found', False, {})]
+        deco = [_ast.unparse(d) for d in dc.decorator_list]
+        ordered = any(d.replace(' ', '') in ('dataclasses.dataclass(order=True)', 'dataclass(order=True)') for d in deco)
+        fields = [(s.target.id, _ast.unparse(s.value) if s.value is not None else '') for s in dc.body
+                  if isinstance(s, _ast.AnnAssign) and isinstance(s.target, _ast.Name)]
+        compared = [n for n, v in fields if 'compare=False' not in v.replace(' ', '')]
+        out.append(('entries_are_ordered_dataclass_instances', ordered, {'decorators': str(deco)}))
+        out.append(('first_compared_field_is_the_due_time', bool(compared) and compared[0] == 'send_time', {'compared_fields': str(compared)}))
+        out.append(('message_is_not_part_of_the_order', 'msg' not in compared, {}))
+        init = next((f for f in cd.body if isinstance(f, _ast.FunctionDef) and f.name == '__init__'), None)
+        q = [_ast.unparse(s.value) for s in _ast.walk(init) if isinstance(s, _ast.Assign) and _ast.unparse(s.targets[0]) == 'self._send_queue'] if init else []
+        out.append(('queue_is_a_priority_queue', len(q) == 1 and q[0].split('(')[0].endswith('PriorityQueue'), {'value': str(q)}))
+        # enqueue sites: first positional argument (or send_time=) is the computed time
+        names = [n for n, _ in fields]
+        sites, bad = 0, []
+        for n in _ast.walk(cd):
+            if isinstance(n, _ast.Call) and _ast.unparse(n.func).endswith('_EnqueuedMessage'):
+                sites += 1
+                kw = {k.arg: k.value for k in n.keywords}
+                idx = names.index('send_time') if 'send_time' in names else 0
+                v = kw.get('send_time', n.args[idx] if len(n.args) > idx else None)
+                if v is None or _ast.unparse(v) != 'next_send':
+                    bad.append(_ast.unparse(n))
+        out.append(('enqueue_sites_pass_the_scheduled_time_as_due_time', sites >= 2 and not bad, {'sites': sites, 'bad': str(bad)}))
+        return out
